@@ -3,10 +3,11 @@ CONSTANTS
   MaxN = 3
   NOps = 2
   Dev_NoStaleCheck = FALSE
-  Dev_NoStaleCheckUntimed = FALSE
+  Dev_NoStaleCheckUntimed = TRUE
   Dev_NoRearm = FALSE
   EagerKernel = FALSE
 SPECIFICATION Spec
+CONSTRAINT NoOverlap
 CONSTRAINT BigOps
-INVARIANTS ExclusiveBuffer
+INVARIANTS NilMeansTaken
 CHECK_DEADLOCK FALSE
